@@ -5,24 +5,43 @@ CRATE = "e_iter"
 DRIVER = "drv_iter"
 DRIVER_MODULE = "Driver.Iter"
 PROPS = "RlibModel.Props.C15"
-PROFILES = ["release"]
-SHRINK_SEP = None
+PROFILES = ["release", "debug"]     # debug: debug assertions on, no optimisation; a reduced stream of the same families (harness_args)
+SHRINK_SEP = ";"
 RULE = ("cases: every mask of u8/i8 for iter_submasks and iter_supermasks; u16/i16 exhaustively in the thorough tier (quick: every mask with "
         "<= 6 free bits + a seeded 1/16 sample of the rest); the 8 wider types with <= 12 free bits (contiguous / top-bit / boundary-anchored / random patterns, "
         "plus 0, 1, MIN, MAX, all-ones); next_permutation on every sequence over {0,1,2} of length <= 7, every permutation of <= 8 "
         "(quick: 7) distinct elements, random multisets incl. i64::MIN/MAX, sequences built so that the pivot value occurs again in the suffix, and walks of 1000 (thorough 5000) "
-        "successive steps from a few hundred (thorough 1000) start points of 8 distinct elements / 8-element multisets; iter_permutations on every multiset over {0,1,2} of length <= 7, "
-        "0..8 distinct elements (unsorted input), random multisets; the three neighbour iterators on every grid <= 6x6 (0xk, kx0, 1x1 "
+        "successive steps from a few hundred (thorough 1000) start points of 8 distinct elements / 8-element multisets; LONG sequences (10..40 elements, 2..5 distinct values): "
+        "systematically every tail length 1..39 x 0..3 copies of the pivot value in the non-increasing tail x 1..3 values above it, random words with a sorted-descending tail "
+        "of random length, first / last arrangement, and walks of 400 (thorough 1000) steps over long multisets; iter_permutations on every multiset over {0,1,2} of length <= 7, "
+        "0..8 distinct elements (unsorted input), random multisets, and sequences of 10..40 elements with few arrangements (one majority value and 1..3 others, <= 3000 "
+        "arrangements, thorough 20000); the three neighbour iterators on every grid <= 6x6 (0xk, kx0, 1x1 "
         "included) at every cell and at the cells just outside, plus large grids (< 2^62) at border cells. Collected outputs are compared "
-        "(long ones by length, first, last and a 64-bit digest; on an oracle mismatch the harness view names the first differing position and the elements around it). non-trivial = distinct in-domain case whose collected output has more "
-        "than one element (masks, permutations), resp. a sequence of length >= 2 (next_permutation), resp. a non-empty grid (neighbours)")
+        "(long ones by length, first, last and a 64-bit digest; on an oracle mismatch the harness view names the first differing position and the elements around it). "
+        "SCRIPTS `it <iterator> ; op ; op ...` on ONE iterator value of each of the six iterators (every u8/i8 mask x both mask iterators x 3 scripts, the wider types with <= 10 free bits, "
+        "every multiset over {0,1,2} up to length 5 and random / long multisets for iter_permutations, small and large grids): 0..4 calls by &mut self (next, size_hint, nth, "
+        "by_ref().take(k), find, position, any, all) followed by one call by value (count, last, fold, for_each, collect, reduce, min, max, min_by_key, max_by_key, min_by, max_by "
+        "with keys that tie, sum, product) - i.e. every provided Iterator method an iterator type can override, also after partial consumption; size_hint must bracket the "
+        "true number of items still to come; other live iterators of the crate are created before and after the one under test and stepped between its ops (they must equal their own "
+        "fresh runs). A case whose call never returns ends the harness after 20 s (watchdog) and is reported as a violation with that input. Every iter_permutations output is fed "
+        "back item by item into next_permutation; next_permutation / iter_permutations also run on records ordered by a key with a distinguishing tag (the records handed back must be "
+        "the ones given). A second, reduced stream of all families runs against a debug build of the library (debug assertions on). non-trivial = distinct in-domain case whose collected "
+        "output has more than one element (masks, permutations), resp. a sequence of length >= 2 (next_permutation), resp. a non-empty grid (neighbours), resp. a script with at least one op")
 ASSUMPTIONS = [
     "the Lean model of rlib_iter is hand-written; it is tied to the code by running both on the same cases",
     "sequence elements are modelled as mathematical integers (the harness uses i64); next_permutation only uses `<`/`>` of `Ord` "
     "(the harness also steps every sequence as Vec<Reverse<i128>> and as a struct ordered by a string key and reports a difference)",
     "neighbour iterators: n, m, i, j < 2^63 - 1 (no isize overflow in `i + x`)",
+    "scripts: the functions return `impl Iterator`, so only `Iterator`'s own methods are reachable (no DoubleEndedIterator / ExactSizeIterator / Clone); "
+    "nothing is called on an iterator after it has returned None once (std leaves that unspecified; PermutationIter is not fused)",
+    "scripts: `size_hint` is judged by the harness (lower <= items still to come <= upper, the count taken from the harness' own brute-force enumeration); the model prints `hint=ok`",
+    "scripts: the model side runs std's default method bodies (written in Lean as loops over next), the spec side what the methods mean on the sequence still to come; "
+    "proved equal (provided_methods_spec); the harness additionally evaluates every op on its own brute-force sequence",
+    "sequences longer than 64, iter_permutations outputs longer than 100000 arrangements (scripts: 50000; masks in scripts: 2^16; min/max family: 1024 items) are refused by both sides",
 ]
-TRUSTED_EXTRA = ["64-bit digest (FNV-style, written twice: Lean driver and Rust harness) used to compare collected outputs longer than 32 masks / 24 arrangements"]
+TRUSTED_EXTRA = ["64-bit digest (FNV-style, written twice: Lean driver and Rust harness) used to compare collected outputs longer than 32 masks / 24 arrangements",
+                 "the reading of std's default bodies of the provided Iterator methods (library/core/src/iter/traits/iterator.rs) as the Lean loops `std…` of Model/IterProto.lean",
+                 "the harness watchdog (a case without an answer for 20 s ends the process; `check` reports the first unanswered case)"]
 MANIFEST = {
     "level": "proof",
     "text": ("Lean 4 theorems about the modelled iterators, for every width and every mask: iter_submasks yields exactly the submasks of x, once each, "
@@ -31,7 +50,10 @@ MANIFEST = {
              "successor among all arrangements with duplicates allowed, and false exactly on non-increasing input, leaving the sorted arrangement; "
              "iter_permutations is a strictly increasing chain from the sorted to the non-increasing arrangement containing every arrangement "
              "exactly once (enough fuel proved); the neighbour iterators equal the offset lists filtered by the grid bounds, with a distance "
-             "characterisation of membership. The model is tied to rlib_iter by a differential correspondence run on every check."),
+             "characterisation of membership. The provided Iterator methods (nth, take, find, position, any, all, count, last, fold, reduce, min/max and the "
+             "by-key forms with ties, checked sum/product), modelled as std's loops over next, equal their meaning on the sequence still to come, so every way of "
+             "consuming the iterators - also after partial consumption - is fixed by the enumeration theorems; a direct enumeration of the distinct arrangements of a "
+             "multiset equals the by-definition one (used for long sequences with few arrangements). The model is tied to rlib_iter by a differential correspondence run on every check."),
     "note": ("Trusted: Lean kernel, axioms propext/Classical.choice/Quot.sound, the hand-written model (checked against the code only on the generated "
              "cases), harness and driver plumbing incl. the digest used for long outputs. Element type of sequences is Int in the model."),
     "technique": "Lean 4 proof of a hand-written model + differential correspondence check against the Rust crate",
@@ -39,10 +61,17 @@ MANIFEST = {
 }
 
 
+def harness_args(params, profile):
+    """`--profile debug`: the generator emits the same streams at a reduced size (quick: the `light` sizes; thorough: the quick sizes)."""
+    return ["--profile", profile]
+
+
 def nontrivial(case, rec):
     toks = case.split()
     op = toks[0].split(":")[0]
     try:
+        if op == "it":
+            return any(seg.strip() for seg in case.split(";")[1:])
         if op in ("sub", "sup"):
             return "," in rec["model"][2] or rec["model"][2].startswith("n=")
         if op == "np":
